@@ -7,6 +7,7 @@ import (
 	"go/parser"
 	"go/token"
 	"os"
+	"regexp"
 	"strings"
 
 	"github.com/dave/dst/decorator"
@@ -62,10 +63,18 @@ func c03Check(in c03Input) (key, what string) {
 	}
 	lf := c03Input{Src: strings.ReplaceAll(in.Src, "\r\n", "\n"), Variant: in.Variant}
 	if k2, _ := c03CheckRaw(lf); k2 == "" {
+		// the recorded defect is about BLANK lines (the decorator peeks one byte ahead and does not see
+		// "\r\n\r\n"): with the empty lines -- and only those -- ended by a bare "\n" it must pass
+		mixed := c03Input{Src: crlfEmptyLine.ReplaceAllString(in.Src, "\n"), Variant: in.Variant}
+		if k3, w3 := c03CheckRaw(mixed); k3 != "" {
+			return "c03-crlf", "CRLF only, and not through blank lines (fails with LF-terminated empty lines too): " + w3
+		}
 		return "crlf-blank-lines-lost", "CRLF only (the LF version of the same text passes): " + what
 	}
 	return
 }
+
+var crlfEmptyLine = regexp.MustCompile(`(?m)^\r\n`)
 
 func c03CheckRaw(in c03Input) (key, what string) {
 	if _, err := parser.ParseFile(token.NewFileSet(), "", in.Src, parser.ParseComments); err != nil {
@@ -269,6 +278,12 @@ func importOrderOnly(a, b []tokItem) bool {
 	return true
 }
 
+// inputs of fixed defects
+var c03Regress = []string{
+	"package a\r\n\r\nvar _ = f(`a\r\nb\r\nc\r\n`)\r\n", // 29b97b8: CRLF file with a multi-line raw string
+	"package a\n\nfunc g(\n\tx int,\n\t/* c */) {\n}\n", // 3dd4b07
+}
+
 var c03Known = []string{
 	"package a\r\n\r\nimport (\r\n\t\"b\"\r\n\r\n\t\"a\"\r\n)\r\n",
 	"// Copyright\r\n\r\n//go:build linux\r\n\r\npackage a\r\n",
@@ -297,6 +312,13 @@ func c03Prop(c *Ctx) {
 				in.Src = clipKeep(in.Src)
 				c.Res.fail(key, what, in)
 			}
+		}
+	}
+	for _, src := range c03Regress {
+		in := c03Input{Src: src, Variant: "regress"}
+		c.Res.Evaluations++
+		if key, what := c03Check(in); key != "" {
+			c.Res.fail(key, what, in)
 		}
 	}
 	for _, src := range c03Known {
